@@ -61,7 +61,8 @@ def run(ctx):
     run_ = pc.Run(ctx, "c02", vectors=vectors, mutations=nmut)
     d = run_.execute()
     v, cfg = pc.judge(ctx, MODULE_T, run_.trace, kd, f"fixtures + model vectors + mutations seed={ctx.seed}", stride=run_.jobs)
-    pc.classify(ctx, v, run_, "drv_parse", what_of)
+    # one report per (format, kind of failure)
+    pc.classify(ctx, v, run_, "drv_parse", what_of, group_of=lambda e: (e.get("fmt"), e.get("o") if e.get("o") not in ("ok", "err") else "alloc", e.get("mc", "")))
     selftest(ctx, run_.trace, cfg)
     lines = lib.read_lines(run_.trace)
     for want in ('"src":"model"', '"src":"mut"', '"src":"fixture"'):
